@@ -20,19 +20,25 @@ theorem Inv.update' {a : Arena} (h : Inv a) {c : Ctx} {temps : List Ptr} {cover 
    fun hr hmk => by rw [hrnt]; exact h.rootCb hr (by rw [← hph]; exact hmk),
    fun hmk => by simp only at hmk; rw [hm] at hmk; cases hmk⟩
 
-theorem sb_setPacing {a : Arena} (h : Inv a) (hm : a.marked = false) (fin : Bool) (p : Pacing) :
-    Inv (a.stepBody fin (.setPacing p)).1 := by
-  simp only [Arena.stepBody]
-  have sv : SameView a.ctx (a.ctx.withMetrics (·.setPacing p)) := sameView_withMetrics _ _ rfl rfl
-  exact h.update' (c := a.ctx.withMetrics (·.setPacing p)) (temps := a.temps) (cover := a.cover) hm
-    (h.cinv.sameView sv) (fun cv hcv => (sv.coverOK cv).mpr (h.cover cv hcv)) rfl rfl h.cbTemps
+/-- The two knob operations (`set_pacing`, `adjust_debt` — through a cloned `Metrics` handle) keep
+    the `marked` flag: a `MarkedArena` handed out by the previous operation stays usable. -/
+theorem sb_knob {a : Arena} (h : Inv a) (fin : Bool)
+    (hfin : fin = true → a.ctx.phase = .mark ∧ a.cb = none) (f : Metrics → Metrics)
+    (h1 : ∀ m, (f m).underflow = m.underflow) (h2 : ∀ m, (f m).totalGcs = m.totalGcs) :
+    Inv { a with ctx := a.ctx.withMetrics f, marked := fin } := by
+  have sv : SameView a.ctx (a.ctx.withMetrics f) := sameView_withMetrics _ _ (h1 _) (h2 _)
+  exact ⟨h.alive, h.cinv.sameView sv, fun cv hcv => (sv.coverOK cv).mpr (h.cover cv hcv), h.cbTemps,
+    h.finMark, h.rootCb, hfin⟩
 
-theorem sb_adjustDebt {a : Arena} (h : Inv a) (hm : a.marked = false) (fin : Bool) (x : Rat) :
-    Inv (a.stepBody fin (.adjustDebt x)).1 := by
-  simp only [Arena.stepBody]
-  have sv : SameView a.ctx (a.ctx.withMetrics (·.adjustDebt x)) := sameView_withMetrics _ _ rfl rfl
-  exact h.update' (c := a.ctx.withMetrics (·.adjustDebt x)) (temps := a.temps) (cover := a.cover) hm
-    (h.cinv.sameView sv) (fun cv hcv => (sv.coverOK cv).mpr (h.cover cv hcv)) rfl rfl h.cbTemps
+theorem sb_setPacing {a : Arena} (h : Inv a) (_hm : a.marked = false) (fin : Bool)
+    (hfin : fin = true → a.ctx.phase = .mark ∧ a.cb = none) (p : Pacing) :
+    Inv (a.stepBody fin (.setPacing p)).1 :=
+  sb_knob h fin hfin (·.setPacing p) (fun _ => rfl) (fun _ => rfl)
+
+theorem sb_adjustDebt {a : Arena} (h : Inv a) (_hm : a.marked = false) (fin : Bool)
+    (hfin : fin = true → a.ctx.phase = .mark ∧ a.cb = none) (x : Rat) :
+    Inv (a.stepBody fin (.adjustDebt x)).1 :=
+  sb_knob h fin hfin (·.adjustDebt x) (fun _ => rfl) (fun _ => rfl)
 
 theorem sb_leave {a : Arena} (h : Inv a) (hm : a.marked = false) (fin : Bool) :
     Inv (a.stepBody fin .leave).1 := by
